@@ -39,11 +39,13 @@ func propC09() Property {
 
 type reviewed struct {
 	Key    string `json:"key"`
+	Alt    string `json:"alt,omitempty"` // the same entry keyed by function name
 	Reason string `json:"reason"`
 	Count  int    `json:"count,omitempty"` // number of sites sharing this signature (default 1)
 }
 
 var reviewedCount = map[string]int{}
+var reviewedAlt = map[string]string{}
 
 var reviewedCache map[string]string
 
@@ -67,6 +69,9 @@ func loadReviewed() map[string]string {
 			r.Count = 1
 		}
 		reviewedCount[r.Key] = r.Count
+		if r.Alt != "" {
+			reviewedAlt[r.Alt] = r.Key
+		}
 	}
 	return reviewedCache
 }
@@ -409,9 +414,8 @@ func arithMentions(o *Org, term string, d int) bool {
 }
 
 // relevantGuards: implied, fresh relational atoms about the index/bounds/base of the site.
-func (p *Prog) relevantGuards(fn *ssa.Function, in ssa.Instruction, terms []string) []string {
+func (p *Prog) relevantGuards(fn *ssa.Function, in ssa.Instruction, terms []string) (out []string, outSig []string) {
 	d := p.ReachCond(in.Block())
-	var out []string
 	for _, a := range d.Atoms() {
 		if a.Rel == "" {
 			continue
@@ -436,9 +440,11 @@ func (p *Prog) relevantGuards(fn *ssa.Function, in ssa.Instruction, terms []stri
 			continue
 		}
 		out = append(out, sigString(fn, as))
+		outSig = append(outSig, sigString(fn, a.Sig()))
 	}
 	sort.Strings(out)
-	return out
+	sort.Strings(outSig)
+	return out, outSig
 }
 
 type k1Site struct {
@@ -448,7 +454,10 @@ type k1Site struct {
 	desc string
 }
 
-func (p *Prog) k1Signature(bi BoundsInstr) (sig string, desc string) {
+// k1Signature returns the ledger key (function shape + name-free expression + fresh guards),
+// the alternative key by function name (so that either a rename or a signature change alone
+// does not reopen an entry) and a readable description.
+func (p *Prog) k1Signature(bi BoundsInstr) (sig, alt, desc string) {
 	fn := bi.Fn
 	xo := p.Origin(bi.X)
 	if _, isAlloc := bi.X.(*ssa.Alloc); isAlloc {
@@ -456,31 +465,41 @@ func (p *Prog) k1Signature(bi BoundsInstr) (sig string, desc string) {
 	}
 	var terms []string
 	terms = append(terms, xo.String())
-	var shape string
+	var shape, shapeSig string
 	if bi.Kind == "index" {
 		io := p.Origin(bi.Idx)
 		terms = append(terms, io.String())
 		shape = "index(" + xo.String() + ")[" + io.String() + "]"
+		shapeSig = "index(" + xo.Sig() + ")[" + io.Sig() + "]"
 	} else {
 		lo, hi, mx := "_", "_", ""
+		los, his, mxs := "_", "_", ""
 		if bi.Low != nil {
-			lo = p.Origin(bi.Low).String()
+			o := p.Origin(bi.Low)
+			lo, los = o.String(), o.Sig()
 			terms = append(terms, lo)
-			terms = append(terms, subTerms(p.Origin(bi.Low))...)
+			terms = append(terms, subTerms(o)...)
 		}
 		if bi.High != nil {
-			hi = p.Origin(bi.High).String()
+			o := p.Origin(bi.High)
+			hi, his = o.String(), o.Sig()
 			terms = append(terms, hi)
-			terms = append(terms, subTerms(p.Origin(bi.High))...)
+			terms = append(terms, subTerms(o)...)
 		}
 		if bi.Max != nil {
-			mx = ":" + p.Origin(bi.Max).String()
+			o := p.Origin(bi.Max)
+			mx, mxs = ":"+o.String(), ":"+o.Sig()
 		}
 		shape = "slice(" + xo.String() + ")[" + lo + ":" + hi + mx + "]"
+		shapeSig = "slice(" + xo.Sig() + ")[" + los + ":" + his + mxs + "]"
 	}
-	gs := p.relevantGuards(fn, bi.In, terms)
-	sig = "K1|" + FuncName(fn) + "|" + sigString(fn, shape) + "|guards{" + strings.Join(gs, " && ") + "}"
-	return sig, sigString(fn, shape)
+	gs, gsSig := p.relevantGuards(fn, bi.In, terms)
+	sig = "K1|" + fnShape(fn) + "|" + sigString(fn, shapeSig) + "|guards{" + strings.Join(gsSig, " && ") + "}"
+	alt = "K1|" + FuncName(fn) + "|" + sigString(fn, shape) + "|guards{" + strings.Join(gs, " && ") + "}"
+	if os.Getenv("QFSA_REKEY") != "" {
+		fmt.Printf("REKEY\t%s\t%s\t%s\n", "K1|"+fnShape(fn)+"|"+sigString(fn, shape)+"|guards{"+strings.Join(gs, " && ")+"}", sig, alt)
+	}
+	return sig, alt, sigString(fn, shape)
 }
 
 func subTerms(o *Org) []string {
@@ -987,7 +1006,7 @@ func c09K1(c *Ctx) {
 	usedRev := map[string]bool{}
 	nStdlib, nInlined, nOutside, nProved, nInv, nRev := 0, 0, 0, 0, 0, 0
 	seen := map[ssa.Instruction]bool{}
-	type pendSite struct{ name, pos, desc string }
+	type pendSite struct{ name, pos, desc, alt string }
 	pending := map[string][]pendSite{}
 	for _, s := range sites {
 		if strings.HasPrefix(s.File, "<") {
@@ -1035,8 +1054,8 @@ func c09K1(c *Ctx) {
 				c.OK(name, pos, "INV-field: lookup-table fields have length >= 1 (K1b)")
 				continue
 			}
-			sig, desc := p.k1Signature(bi)
-			pending[sig] = append(pending[sig], pendSite{name, pos, desc})
+			sig, alt, desc := p.k1Signature(bi)
+			pending[sig] = append(pending[sig], pendSite{name, pos, desc, alt})
 		}
 	}
 	var sigs []string
@@ -1047,6 +1066,21 @@ func c09K1(c *Ctx) {
 	for _, sig := range sigs {
 		ps := pending[sig]
 		why, ok := rev[sig]
+		if !ok {
+			// by function name (the function's signature changed but not its name)
+			if k2, found := reviewedAlt[ps[0].alt]; found {
+				same := true
+				for _, s := range ps {
+					if s.alt != ps[0].alt {
+						same = false
+					}
+				}
+				if same && len(ps) == reviewedCount[k2] {
+					why, ok = rev[k2], true
+					sig = k2
+				}
+			}
+		}
 		if ok && len(ps) == reviewedCount[sig] {
 			for _, s := range ps {
 				nRev++
@@ -1060,7 +1094,7 @@ func c09K1(c *Ctx) {
 			if ok {
 				msg = fmt.Sprintf("%d sites now share the signature of a reviewed entry that covers %d: a site lost its guard or a new unguarded site appeared. %s", len(ps), reviewedCount[sig], msg)
 			}
-			c.Violation(s.name, s.pos, strings.TrimPrefix(sig, "K1|"+s.name+"|"), msg)
+			c.Violation(s.name, s.pos, strings.TrimPrefix(sig, "K1|"), msg)
 		}
 	}
 	_ = nStdlib
@@ -1083,12 +1117,15 @@ func c09K1b(c *Ctx) {
 			c.OK(name, pos, "stored field has length >= 1")
 			continue
 		}
-		sig := "K1b|" + name + "|" + sigString(mu.Fn, p.Origin(mu.In.Value).String())
+		sig := "K1b|" + fnShape(mu.Fn) + "|" + sigString(mu.Fn, p.Origin(mu.In.Value).Sig())
+		if os.Getenv("QFSA_REKEY") != "" {
+			fmt.Printf("REKEY\t%s\t%s\t%s\n", "K1b|"+fnShape(mu.Fn)+"|"+sigString(mu.Fn, p.Origin(mu.In.Value).String()), sig, "")
+		}
 		if why, ok := rev[sig]; ok {
 			c.OK(name, pos, "reviewed: "+why)
 			continue
 		}
-		c.Violation(name, pos, strings.TrimPrefix(sig, "K1b|"+name+"|"), "a field whose length is not shown to be >= 1 is stored into a FieldMap lookup table; every reader indexes element 0. signature: "+sig)
+		c.Violation(name, pos, strings.TrimPrefix(sig, "K1b|"), "a field whose length is not shown to be >= 1 is stored into a FieldMap lookup table; every reader indexes element 0. signature: "+sig)
 	}
 }
 
@@ -1178,7 +1215,7 @@ func c09K2(c *Ctx) {
 				}
 				d := p.ReachCond(r.Block())
 				guarded := d.Implies(func(a *Atom) bool { return a.Rel == "!=" && a.L.Val == phi && a.R.IsNil() })
-				sig := "K2|" + name + "|" + typeName(phi.Type()) + " " + what
+				sig := "K2|" + fnShape(fn) + "|" + typeName(phi.Type()) + " " + what
 				if guarded {
 					c.OK(name, p.InstrPos(r), "possibly-nil "+typeName(phi.Type())+" dereferenced under a non-nil guard")
 					continue
@@ -1317,7 +1354,7 @@ func c09K4(c *Ctx) {
 		ForEachInstr(fn, func(in ssa.Instruction) {
 			switch x := in.(type) {
 			case *ssa.Panic:
-				sig := "K4|" + name + "|panic"
+				sig := "K4|" + fnShape(fn) + "|panic"
 				if okc, why := p.panicUnreachableByTypes(x, cone); okc {
 					c.OK(name, p.InstrPos(in), "panic arm unreachable by type flow: "+why)
 				} else if why, ok := rev[sig]; ok {
@@ -1330,7 +1367,10 @@ func c09K4(c *Ctx) {
 					return
 				}
 				// single-result assertion panics on mismatch
-				sig := "K4|" + name + "|assert " + typeName(x.AssertedType)
+				sig := "K4|" + fnShape(fn) + "|assert " + typeName(x.AssertedType)
+				if os.Getenv("QFSA_REKEY") != "" {
+					fmt.Printf("REKEY\t%s\t%s\t%s\n", sig, sig, "")
+				}
 				// discharge: operand comes from a type switch arm (ssa emits comma-ok for switches), or
 				// the concrete types flowing in are a subset: use VTA-free structural test — operand origin is MakeInterface of that type
 				o := p.Origin(x.X)
@@ -1425,13 +1465,15 @@ func c09K5(c *Ctx) {
 		}
 	}
 	for _, comp := range sccs {
-		var names []string
+		var names, shapes []string
 		in := map[*ssa.Function]bool{}
 		for _, f := range comp {
 			names = append(names, FuncName(f))
+			shapes = append(shapes, fnShape(f))
 			in[f] = true
 		}
 		sort.Strings(names)
+		sort.Strings(shapes)
 		label := strings.Join(names, " ⟷ ")
 		pos := p.Pos(comp[0].Pos())
 		// mark-before-recurse: some function of the cycle has a call into the cycle that is
@@ -1467,7 +1509,10 @@ func c09K5(c *Ctx) {
 			c.OK(label, pos, "cycle has a mark-before-recurse guard (visited map tested and set before the recursive call)")
 			continue
 		}
-		sig := "K5|" + label
+		sig := "K5|" + strings.Join(shapes, " ⟷ ")
+		if os.Getenv("QFSA_REKEY") != "" {
+			fmt.Printf("REKEY\t%s\t%s\t%s\n", sig, sig, "")
+		}
 		if why, ok := rev[sig]; ok {
 			c.OK(label, pos, "reviewed structural recursion: "+why)
 			continue
@@ -1704,4 +1749,53 @@ func transitionFn(p *Prog) *ssa.Function {
 		anchorFail("transition function (stores computed states into stateMachine.State)")
 	}
 	return out
+}
+
+// fnShape: a name-free descriptor of a function (receiver type and signature), so that
+// reviewed-ledger keys survive a rename.
+func fnShape(fn *ssa.Function) string {
+	if fn == nil {
+		return "?"
+	}
+	top := fn
+	prefix := ""
+	for top.Parent() != nil {
+		prefix += "closure in "
+		top = top.Parent()
+	}
+	sig := top.Signature
+	var b strings.Builder
+	b.WriteString(prefix)
+	if r := sig.Recv(); r != nil {
+		if _, isPtr := r.Type().(*types.Pointer); isPtr {
+			b.WriteString("(*" + typeName(r.Type()) + ")")
+		} else {
+			b.WriteString("(" + typeName(r.Type()) + ")")
+		}
+	} else if pk := fnPkg(top); pk != nil && pk.Pkg.Path() != modPath {
+		b.WriteString(pk.Pkg.Name() + ".")
+	}
+	b.WriteString("func(")
+	for i := 0; i < sig.Params().Len(); i++ {
+		if i > 0 {
+			b.WriteString(",")
+		}
+		b.WriteString(shortType(sig.Params().At(i).Type()))
+	}
+	b.WriteString(")")
+	if sig.Results().Len() > 0 {
+		b.WriteString("(")
+		for i := 0; i < sig.Results().Len(); i++ {
+			if i > 0 {
+				b.WriteString(",")
+			}
+			b.WriteString(shortType(sig.Results().At(i).Type()))
+		}
+		b.WriteString(")")
+	}
+	return b.String()
+}
+
+func shortType(t types.Type) string {
+	return types.TypeString(t, func(*types.Package) string { return "" })
 }
